@@ -164,6 +164,19 @@ T.update({
  'C20_g': dict(change='ConstantTimeCmp loop starts at len(a)-1 instead of l-1', needs='l < len(a)', strengthened='no'),
 })
 
+T.update({
+ 'C05_h': dict(change='sm4_asm.go: accelerated Decrypt passes (src, dst) to a kernel that expects (dst, src)', needs='NewCipher block, Decrypt with dst and src different buffers: dst untouched, src overwritten', strengthened='YES: the symbolic dispatch obligation failed but the replay only decrypted in place; replay now decrypts into a separate buffer and checks that the source block is preserved'),
+ 'C06_h': dict(change='gcm_amd64.s gHashBlocksLoopBy4New folds the stale tag register instead of the running accumulator', needs='nonce of 128 bytes or more (4-way GHASH step of the J0 derivation)', strengthened='no'),
+ 'C07_h': dict(change='gcm_amd64.s calculateJ0Branch2: JL last became JLE last', needs='16-byte nonce: every nonce gives the same J0, Open accepts under any other 16-byte nonce', strengthened='no'),
+ 'C09_h': dict(change='asm_amd64.s cryptoBlockAsm: VPTEST/JEQ shortcut that skips the byte swap for an all-zero block', needs='branch on plaintext/ciphertext block data', strengthened='YES: the assembly interpreter did not know VPTEST and the check aborted (INCONCLUSIVE); VPTEST/PTEST added, the jump is now reported as a branch on secret data'),
+ 'C10_h': dict(change='VerifyZa computes e with hash.Sum(za[:0])', needs='caller reuses its za buffer after VerifyZa', strengthened='no'),
+ 'C11_h': dict(change='gcm_amd64.s: tail of 1..15 bytes read as a full 16-byte block straight from src', needs='plaintext length not a multiple of 16 ending at a page boundary', strengthened='no'),
+ 'C12_h': dict(change='fiat SM2Element.Equal compares only the first 31 bytes of the encodings', needs='off-curve pair whose y^2 and x^3-3x+b differ in the lowest byte only', strengthened='YES: Equal/IsZero were taken by contract and never executed; new obligation field_equality runs the real Equal/IsZero (over crypto/subtle) on arbitrary canonical encodings, replay builds an accepted off-curve pair from the counterexample'),
+ 'C13_h': dict(change='sm3 checkSum: nx > maxTail became nx >= maxTail', needs='hashed length 55 mod 64: id of 53 mod 64 bytes or message of 23 mod 64 bytes', strengthened='YES: C13 takes the hash object by contract (C04 proves it) and its concrete reference runs used 7 id lengths and one message length; reference runs now cover id and message lengths 0..129, i.e. every residue of the hashed length mod 64'),
+ 'C15_h': dict(change='SM2Point.SetBytes infinity case zeroes only z and keeps the receiver x, y', needs='00 decoded into a receiver holding a finite point: (X : Y : 0) with X != 0 is not neutral for Add', strengthened='YES: the decode obligation only asked for Z = 0; it now asks for a point of the projective curve (X = 0, Y != 0, Z = 0) from an arbitrary symbolic receiver, replay decodes 00 into used receivers and checks neutrality'),
+ 'C17_h': dict(change='SignZa hashes append(za, msg...)', needs='za with spare capacity shared by goroutines: msg bytes are written behind za in the caller buffer', strengthened='YES: audited inputs had cap == len so an append reallocated; inputs of the message-level audit now sit in buffers with spare capacity (and za is listed as an input), the race replay shares a za record between workers'),
+})
+
 for name, t in sorted(T.items()):
     d = os.path.join(S, name)
     if not os.path.isdir(d):
@@ -173,7 +186,7 @@ for name, t in sorted(T.items()):
     detected = any(l.startswith('VIOLATION') for l in res)
     key = next((l.strip() for l in res if l.strip().startswith('key=')), '')
     meta = dict(
-        seed=name, property=prop, origin='fresh sub-agent given only the property text and a scratch worktree of /repo' + (' (asked for a change in the arm64 implementation; demonstration by a Go port of the changed logic, since arm64 code cannot run on this host)' if name.endswith('_d') else '') + (' (fifth round: one sub-agent handled four properties in turn, each in its own worktree)' if name.endswith(('_f', '_g')) else ''),
+        seed=name, property=prop, origin='fresh sub-agent given only the property text and a scratch worktree of /repo' + (' (asked for a change in the arm64 implementation; demonstration by a Go port of the changed logic, since arm64 code cannot run on this host)' if name.endswith('_d') else '') + (' (fifth/sixth round: one sub-agent handled four properties in turn, each in its own worktree)' if name.endswith(('_f', '_g')) else '') + (' (seventh round: one sub-agent handled two properties in turn, each in its own worktree)' if name.endswith('_h') else ''),
         change=t['change'], needs_to_manifest=t['needs'],
         compiles=True, existing_suite_passes=True,
         confirmed_by_me='applied patch.diff in a scratch worktree: go build ./... and go test -vet=off -count=1 ./... pass; demo_test.go fails with the change and passes without it (C08/C09/C11: structural demonstration, see meta.txt)',
